@@ -77,6 +77,11 @@ class St:
     def assume(self, c):
         if is_true(c):
             return
+        if z3.is_and(c):
+            # conjuncts are kept separately: quantifier-free ones stay visible to the feasibility check
+            for ch in c.children():
+                self.assume(ch)
+            return
         self.pc.append(c)
 
     @property
